@@ -67,7 +67,7 @@ def paired(res_nf, rows):
 def generate(ctx):
     rng = ctx.rng
     n_cases = ctx.budget(60, 500)
-    layouts = [l for l in gen.LAYOUTS if l != "missing_hidden"]
+    layouts = list(gen.LAYOUTS)
     cases = []
     for i in range(n_cases):
         n = rng.randint(0, 7)
